@@ -452,7 +452,6 @@ func (g *exprGen) step(ctx []*model.Value, env ref.Env, depth int) *ref.E {
 	}
 }
 
-
 func (g *exprGen) newVar() string {
 	v := rapid.SampledFrom([]string{"x", "y", "z"}).Draw(g.t, "vn")
 	return v
@@ -764,7 +763,6 @@ func (g *exprGen) expr(ctx []*model.Value, env ref.Env, depth int) *ref.E {
 	}
 	return e
 }
-
 
 // CoreExpr generates a core-fragment expression fitted to doc.
 func CoreExpr(t *rapid.T, doc *model.Value, depth int) *ref.E {
